@@ -13,12 +13,18 @@ package ggql
 //@ guarded FieldDef.goField by mu
 //@ guarded FieldDef.method by mu
 
+//@ -- Go-type binding of an object type (C08: what decides which union member / concrete type a value is): the first
+//@ -- binding wins; a different Go type is refused and leaves the binding as it was
 //@ func (*Root).assureType
-//@   props C12
+//@   props C12 C08
 //@   check lock {C12}
 //@   check panic {C03}
 //@   requires obj != nil
 //@   requires[unlocked] !held(obj.mu)
+//@   results err
+//@   ensures[first-binding]{C08} old(obj.meta) == nil ==> err == nil && obj.meta == rtypeof(sample)
+//@   ensures[same-binding]{C08} old(obj.meta) != nil && old(obj.meta) == rtypeof(sample) ==> err == nil && obj.meta == old(obj.meta)
+//@   ensures[other-type-refused]{C08} old(obj.meta) != nil && old(obj.meta) != rtypeof(sample) ==> err != nil && obj.meta == old(obj.meta)
 //@   ensures[locks-balanced] held == old(held)
 //@   assigns fresh, obj.meta, held
 
@@ -32,15 +38,47 @@ package ggql
 //@   ensures[typed] obj != nil ==> ptrval(obj) != 0
 //@   assigns fresh, held
 
+//@ -- lazy binding of a union member to a Go type (C08): an unbound object type is bound to rt only when the rule of the
+//@ -- documentation holds for rt with its pointers stripped: an @go(type:) argument equal to "<import path>.<Name>", to the
+//@ -- short form "<pkg>.<Name>" (reflect's String) or to "<Name>"; without an @go directive the GraphQL type name equals <Name>
+//@ interface reflect.Type.Kind
+//@   pure
+//@ interface reflect.Type.PkgPath
+//@   pure
+//@ interface reflect.Type.Name
+//@   pure
+//@ interface reflect.Type.String
+//@   pure
+//@ spec baseT(rt reflect.Type) reflect.Type
+//@ axiom baseTUnfold(rt reflect.Type): baseT(rt) == ite(rt.Kind() == 22, baseT(rt.Elem()), rt)
+//@ -- reflect types are finite: stripping a pointer gets closer to the base type
+//@ spec ptrDepth(rt reflect.Type) int
+//@ axiom ptrDepthStep(rt reflect.Type): 0 <= ptrDepth(rt) && (rt.Kind() == 22 ==> ptrDepth(rt.Elem()) < ptrDepth(rt) && rt.Elem() != nil)
+//@ spec goMatches(s string, bt reflect.Type) bool = s == bt.PkgPath() + "." + bt.Name() || s == bt.String() || s == bt.Name()
+//@ spec goUse(du *DirectiveUse) bool = du != nil && is(du.Directive, *Directive) && as(du.Directive, *Directive) != nil && as(du.Directive, *Directive).N == "go"
+//@ -- (a type argument that is not a string literal reads as the empty string, as the code's `s, _ := a.Value.(string)` does)
+//@ spec strOf(v interface{}) string = ite(is(v, string), as(v, string), "")
+//@ spec goTypeArgMatches(du *DirectiveUse, bt reflect.Type) bool = du.Args != nil && du.Args["type"] != nil && goMatches(strOf(du.Args["type"].Value), bt)
 //@ func (*Object).metaCheck
-//@   props C12
+//@   props C12 C08
 //@   check lock {C12}
-//@   requires t != nil
+//@   check panic {C03}
+//@   requires t != nil && rt != nil
 //@   requires[unlocked] !held(t.mu)
 //@   results meta, err
 //@   assumes aserr(err) == nil
+//@   ensures[bound-kept]{C08} old(t.meta) != nil ==> t.meta == old(t.meta) && meta == old(t.meta) && err == nil
+//@   ensures[bound-only-by-rule]{C08} old(t.meta) == nil && t.meta != nil ==> t.meta == rt && ((exists i int {t.Dirs[i]} :: 0 <= i && i < len(t.Dirs) && goUse(t.Dirs[i]) && goTypeArgMatches(t.Dirs[i], baseT(rt))) || t.N == baseT(rt).Name())
+//@   ensures[result]{C08} meta == t.meta && (err == nil <==> t.meta != nil)
 //@   ensures[locks-balanced] held == old(held)
 //@   assigns fresh, t.meta, held
+//@   use baseTUnfold(rt)
+//@   use baseTUnfold(bt)
+//@   loop 0: invariant[same-base] baseT(bt) == baseT(rt) && bt != nil
+//@           invariant[held] held(t.mu)
+//@           decreases ptrDepth(bt)
+//@           use ptrDepthStep(bt)
+//@           use baseTUnfold(bt)
 
 //@ func (*Root).regField
 //@   props C12
